@@ -11,10 +11,10 @@ BOM = b"\xef\xbb\xbf"
 # ------------------------------------------------------------------ known-finding classes (findings/C17.json)
 # (repaired in /repo and therefore violations again if they return: unterminated-last-record,
 #  clear-completed-drops-empty-leading-fields, multi-file-unterminated-carry-over,
-#  null-in-first-row-taken-as-header, boolean-word-mixed-column, inference-sample-without-end-of-input;
-#  their witnesses are replayed by stage_regress in every run.
+#  null-in-first-row-taken-as-header, boolean-word-mixed-column, inference-sample-without-end-of-input,
+#  bom-split-across-first-read; their witnesses are replayed in every run: stage_regress through SQL, the BOM
+#  witnesses as hand-picked decoder cases (every 1- and 2-cut chunking) and reader cases with read buffers 1 and 2.
 #  blank lines: not a finding - the spec (model/Csv.v rfc4180) skips them like csv_core documents it does.)
-K_BOMSPLIT = "bom-split-across-first-read"
 
 
 # ------------------------------------------------------------------ generators
@@ -211,7 +211,9 @@ def stage_decode(ctx, rng, gv, gm):
     # hand-picked: the witnesses of the theorems / findings
     for j, (txt, dl, q) in enumerate([(b"a,b\n1,2", 44, 34), (b"a,b\n,c\n", 44, 34), (b"a\n\nb\n", 44, 34),
                                        (b'a,"b""c"\r\n"x\r\ny",z\r\n', 44, 34), (BOM + b"a,b\n1,2\n", 44, 34),
-                                       (b"a|'b''c'\n'',|\n", 124, 39), (b'a,b\n"",""\n"",c\n', 44, 34)]):
+                                       (b"a|'b''c'\n'',|\n", 124, 39), (b'a,b\n"",""\n"",c\n', 44, 34),
+                                       (BOM + b"a\n", 44, 34), (BOM, 44, 34), (BOM[:2], 44, 34), (BOM[:2] + b"a\n1\n", 44, 34),
+                                       (BOM[:1] + b'"' + BOM + b'"\n', 44, 34)]):
         for flush in (False, True):
             cases.append({"id": "w%d-%d" % (j, flush), "delim": dl, "quote": q, "hex": txt.hex(), "mode": "all2",
                           "flush": flush, "cap": 0, "final_empty": True, "wf": True})
@@ -271,14 +273,11 @@ def stage_decode(ctx, rng, gv, gm):
                     continue
                 if w == 0:
                     continue
-                if data.startswith(BOM) and cuts and cuts[0] < 3:
-                    known.setdefault(K_BOMSPLIT, {"hex": c["hex"], "cuts": cuts})
-                else:
-                    viol.append({"kind": "records-depend-on-chunking", "delim": c["delim"], "quote": c["quote"], "hex": c["hex"],
-                                 "flush_clear_completed_after_each_read": c["flush"], "end_of_input_signal": c["final_empty"],
-                                 "cuts": cuts, "got": r["results"][w], "unchunked": r["results"][0],
-                                 "replay_cmd": "echo '<case json: id,delim,quote,hex,mode=cuts,cuts=[cuts],flush,final_empty,cap=0>' | .work/target/debug/gv_csv decode"})
-                    break
+                viol.append({"kind": "records-depend-on-chunking", "delim": c["delim"], "quote": c["quote"], "hex": c["hex"],
+                             "flush_clear_completed_after_each_read": c["flush"], "end_of_input_signal": c["final_empty"],
+                             "cuts": cuts, "got": r["results"][w], "unchunked": r["results"][0],
+                             "replay_cmd": "echo '<case json: id,delim,quote,hex,mode=cuts,cuts=[cuts],flush,final_empty,cap=0>' | .work/target/debug/gv_csv decode"})
+                break
         # property: the records are the RFC-4180 records (well-formed inputs only)
         if c["wf"] and c["final_empty"]:
             impl = parse_recs(r["results"][0])
@@ -346,6 +345,8 @@ def stage_reader(ctx, rng, gv, gm):
               ((b",2\n3,4\n5,6\n", False), (b"a,b\n1,2", True), (b"x\n1\n\n3\n", True), (b"a,b\n,\n,c\n1,d\n", True), (b"", False),
                (b"a,b\nt,1\n1,t\n", True), (b"t,1\n1,t\n0,f\n", False))]
     files += [dict(gen_file(rng, "tiny"), bytes=b"a|b\n1|2", delim=124, quote=34, header=True)]
+    files += [dict(gen_file(rng, "tiny"), bytes=BOM + b"a,b\n1,2\n3,4\n", delim=44, quote=34, header=True),
+              dict(gen_file(rng, "tiny"), bytes=BOM + b"7\n1\n", delim=44, quote=34, header=False)]
     icases = [{"id": "i%d" % i, "hex": f["bytes"].hex()} for i, f in enumerate(files)]
     ireal = common.run_harness(gv, "infer", icases, timeout=600)
     # model: bind + scan as written (read_buf larger than the file, batch 2048)
@@ -382,8 +383,10 @@ def stage_reader(ctx, rng, gv, gm):
         types = [t for _, t in sch["cols"]]
         if not types:
             continue
-        for _ in range(3 if len(f["bytes"]) < 3000 else 1):
-            rb = rng.choice([1, 2, 3, 5, 7, 16, 64, 4096])
+        rbs = [rng.choice([1, 2, 3, 5, 7, 16, 64, 4096]) for _ in range(3 if len(f["bytes"]) < 3000 else 1)]
+        if f["bytes"].startswith(BOM[:1]):
+            rbs += [1, 2]     # a read ending inside the BOM (repaired finding bom-split-across-first-read)
+        for rb in rbs:
             bt = rng.choice([1, 3, 2048])
             rcases.append({"id": "r%d" % len(rcases), "hex": f["bytes"].hex(), "delim": d[0], "quote": d[1],
                            "has_header": sch["has_header"], "types": types, "read_buf": rb, "batch": bt, "cap": 0})
@@ -419,8 +422,6 @@ def stage_reader(ctx, rng, gv, gm):
         cls = classify_typed(got, srec[1:] if c["has_header"] else srec, c["types"], terminated)
         if cls == "other":
             cls = None
-        if cls is None and data.startswith(BOM) and c["read_buf"] < 3:
-            cls = K_BOMSPLIT
         if cls is None:
             viol.append({"kind": "rows-differ-from-rfc4180", "case": c, "got": r.get("err") or r["rows"][:5], "spec_rows": exp if exp == "ERR" else exp[:5]})
         else:
@@ -687,7 +688,7 @@ def stage_malformed(ctx, rng, gsql):
 # ------------------------------------------------------------------ failing-input search (when a proof / correspondence broke)
 def search_failing(ctx, gv, gm):
     """Property-level search on the implementation alone: the real decoder under every two-cut chunking of small
-    RFC-4180 files vs the RFC-4180 records; anything outside the known classes is returned."""
+    RFC-4180 files vs the RFC-4180 records; any difference is returned."""
     rng = common.Rng(ctx["seed"] ^ 0x17)
     found = []
     cases = []
@@ -706,7 +707,7 @@ def search_failing(ctx, gv, gm):
             found.append({"case": c, "result": r})
             continue
         cls = classify_vs_spec(data, parse_recs(r["results"][0]), parse_recs(sp))
-        if cls == "other" or len(r["results"]) > 1 and not data.startswith(BOM) or any(x.startswith("PANIC") for x in r["results"]):
+        if cls == "other" or len(r["results"]) > 1 or any(x.startswith("PANIC") for x in r["results"]):
             found.append({"delim": c["delim"], "quote": c["quote"], "hex": c["hex"], "got": r["results"], "spec": sp})
         if len(found) >= 3:
             break
